@@ -547,6 +547,12 @@ def _judge_traces(res, cases, note):
             continue
         c = byid[int(cid)]
         if clause.startswith("harness_") or clause.endswith("_Read"):
+            if clause.endswith("_Read") and c["cfg"]["ds"].endswith("Dataset"):
+                # a REAL Dataset read the frame itself: the image that entered its first stage is not the image of the labelled
+                # frame its keypoints come from (e.g. another video's frame) - images and keypoints are not registered
+                clause = "image_is_not_the_labelled_frame_Read"
+                res.violation(_key_of(c, clause), clause, _slim(c), _detail(c, clause))
+                continue
             raise TLCError("harness sanity failed (%s) for case %s: the image fed to the first stage is not the coordinate-coded image" % (clause, c["cfg"]))
         res.violation(_key_of(c, clause), clause, _slim(c), _detail(c, clause))
     if sum(totals.values()) != j["rejected_n"]:
